@@ -36,7 +36,7 @@ func (r *byteReader) remaining() int {
 }
 
 func (r *byteReader) read(n int) ([]byte, error) {
-	if r.remaining() < n {
+	if n < 0 || r.remaining() < n {
 		return nil, fmt.Errorf("insufficient bytes: need %d have %d", n, r.remaining())
 	}
 	start := r.pos
@@ -103,6 +103,11 @@ func (r *byteReader) SkipTaggedFields() error {
 		}
 		if size == 0 {
 			continue
+		}
+		// size is attacker controlled: compare as uint64 before converting,
+		// a value above MaxInt would turn negative and slip past read's check.
+		if size > uint64(r.remaining()) {
+			return fmt.Errorf("tagged field size %d exceeds remaining %d bytes", size, r.remaining())
 		}
 		if _, err := r.read(int(size)); err != nil {
 			return err
